@@ -94,6 +94,13 @@ META = {
                         "Or() with no arguments is TrueFilter (pinned by TestFeatureFilter) and Props entries are non-empty: outside the claims",
                         "Overlap with an empty window and zero-length sites follow the span reading, not the residue reading (documented in DESIGN.md)"],
     },
+    "C12": {
+        "sections": ["Arith.rangeCompare"],
+        "rule": "1500 (thorough 60000) random tables of 0..5 features over two keys (CDS, source) x two qualifier sets (so classes collide) with locations from the shape family plus abutting partial fragments on both strands: Repair, Repair again; restoration: every shape of the family that is well-marked and duplicate-free as the unique CDS of a 3-feature table, cut at 7 cut sets of 1..3 positions, pieces concatenated, repaired and compared with the original. Oracle: no panic, argument untouched, idempotent, unchanged when no same-class pair abuts (abutting written independently), per-class coverage preserved, merges bounded by abutting pairs, restoration. All cases non-trivial.",
+        "assumptions": ["PARTIAL: theorems cover the merge step and the index bookkeeping; idempotence, table-level unchanged and restoration are decided by correspondence + oracle",
+                        "classes are the printed strings key:%v(props) exactly as in the code; groups larger than 12 (unstable pdqsort) are outside the modelled domain",
+                        "known finding K7: multi-part features are re-assembled only when they are ascending joins of ranges cut strictly inside a range"],
+    },
 }
 
 
